@@ -17,6 +17,7 @@ RULE_TEXT = "obligations = one per panic site (Assert / denylisted call), one pe
 ASSUMPTIONS = [
     "panics, overflow or non-termination INSIDE dependencies and std are not analysed (only calls of their documented-panicking APIs are tracked); an unlisted panicking API is not seen",
     "allocation failure, stack depth and capacity requests passed as caller-supplied usize (reserve, reserve_exact, with_capacity) are outside the property's string-argument quantifier: listed, not claimed",
+    "J14: ARRAY[e as usize] is justified only if e is an enum value with default discriminants and the array is at least as long as the enum has variants",
     "J13: a string slice &s[..i] / &s[i+1..] is justified only if i is the Some-payload of s.find(c) / s.rfind(c) on the same s for a one-byte (ASCII) char constant c",
     "J12: x - c is justified only by a dominating branch condition on the same x that implies x >= c (x != 0, x > k, x >= k)",
     "J9: a sum of lengths of strings/collections that are simultaneously alive, plus their count, cannot exceed usize::MAX (each counted element occupies at least one byte of address space)",
@@ -245,6 +246,19 @@ def justify(facts, s):
         if what.startswith("Overflow("):
             return None, "%s has no table justification: it needs a dominating guard that implies the bound (operands: %s)" % (what, ", ".join(nshow(o)[:60] for o in ops))
         if what == "BoundsCheck":
+            # J14: TABLE[e as usize] where e is a value of an enum with default discriminants 0..n-1 and the array has at
+            # least n elements (ops = [len, index])
+            if len(ops) == 2 and ops[0][0] == "const" and isinstance(ops[0][1], int):
+                idx = ops[1]
+                if idx[0] == "cast" and idx[2][0] == "discr" and len(idx[2]) > 2 and idx[2][2]:
+                    nvar = len(idx[2][2])
+                    default = False
+                    for bl in b.blocks:
+                        for st in bl["stmts"]:
+                            if st.get("s") == "assign" and st["rv"].get("r") == "discr" and st["rv"].get("discrs") is not None and len(st["rv"]["discrs"]) == nvar:
+                                default = st["rv"]["discrs"] == list(range(nvar))
+                    if default and ops[0][1] >= nvar:
+                        return "J14", "index is the discriminant of an enum with %d variants (0..%d), the array has %d elements" % (nvar, nvar - 1, ops[0][1])
             return None, "bounds check without provenance"
         return None, "assert kind %s" % what
     if s["kind"] == "panic-call":
